@@ -55,8 +55,8 @@ func init() {
 			h.Ops = genSOps(w, h.Names, n, 9000, c11Kinds, map[string]bool{"missing-id": true})
 			return h
 		},
-		Config: func(cs Case) simrt.Config { return simrt.Config{NoJumps: true} },
-		Run:    runC11,
+		Config:            func(cs Case) simrt.Config { return simrt.Config{NoJumps: true} },
+		Run:               runC11,
 		BudgetIsViolation: true,
 		QuickRuns:         1500,
 		ThoroughRuns:      40000,
